@@ -7,6 +7,7 @@ open Drand.Driver.CrashD
 open Drand.Driver.DispatchD
 open Drand.Driver.DkgD
 open Drand.Driver.DkgRunD
+open Drand.Driver.HandlerD
 open Drand.Driver.HashD
 open Drand.Driver.RouteD
 open Drand.Driver.SecrecyD
